@@ -240,7 +240,7 @@ static unsigned rnd(void) { rng ^= rng << 13; rng ^= rng >> 7; rng ^= rng << 17;
 static const char * cmd0[] = {"*CLS", "*ESR?", "*OPC", "*STB?", "*ESE?", "*SRE?", "*OPC?", "STAT:QUES?", "STAT:PRES", "STAT:QUES:COND?",
     "STAT:QUES:ENAB?", "STAT:OPER?", "STAT:OPER:COND?", "STAT:OPER:ENAB?", "SYST:ERR?", "SYST:ERR:COUN?", "*WAI", "*TST?"};
 static const char * cmd1[] = {"*ESE", "*SRE", "STAT:QUES:ENAB", "STAT:OPER:ENAB"};
-static const int codes[] = {-100, -113, -199, -200, -222, -299, -300, -350, -399, -400, -410, -499, -500, -600, -700, -800, -899, -900, -99, 1, 100, 32767, -1, -32768};
+static const int codes[] = {-100, -113, -199, -200, -222, -299, -300, -350, -399, -400, -410, -499, -500, -600, -700, -800, -899, -900, -99, 1, 100, 32767, -1, -32768, 0};
 
 static long rndval(void) {
     /* sparse 16-bit values so that summaries flip often */
